@@ -746,3 +746,48 @@ M("C07", "acmod: full_float32 forgets fe_start", AC, """    acmod->n_mfc_frame =
     acmod->mfc_outidx = 0;
     if ((nvec = fe_process_float32(acmod->fe,""", "TWIN.entry-points")
 M("C07", "decoder: start_utt accepts PROCESSING (seed C09-2)", DC, "    if (d->acmod->state == ACMOD_STARTED || d->acmod->state == ACMOD_PROCESSING) {", "    if (d->acmod->state == ACMOD_STARTED) {", "CENSUS.utt-state")
+
+DI = "src/dict.c"
+# ---- C16 ----------------------------------------------------------------------
+M("C16", "dict: chain relinked before duplicate test", DI, """        basewid = w;
+    } else {
+        basewid = BAD_S3WID;
+    }""", """        basewid = w;
+        d->word[w].alt = d->n_word;
+    } else {
+        basewid = BAD_S3WID;
+    }""", "EFFECT.D1-failure-paths")
+M("C16", "dict: alt does not inherit chain (seed C16-1 shape)", DI, "        wordp->alt = d->word[basewid].alt;\n", "        wordp->alt = BAD_S3WID;\n", "PAIR.D3-slot-and-chain")
+M("C16", "dict: empty word accepted", DI, """    if (word == NULL || word[0] == '\\0') {
+        E_ERROR("Cannot add an empty word\\n");
+        return BAD_S3WID;
+    }
+""", "", "GUARD.D2-empty-input")
+M("C16", "dict: basestr reads before start", DI, "    if (len > 0 && word[len - 1] == ')') {", "    if (word[len - 1] == ')') {", "GUARD.D2-empty-input")
+M("C16", "dict: slot pointer before growth", DI, """    if (d->n_word >= d->max_words) {
+        E_INFO("Reallocating""", """    wordp = d->word + d->n_word;
+    if (d->n_word >= d->max_words) {
+        E_INFO("Reallocating""", "PAIR.D3-slot-and-chain")
+M("C16", "dict: capacity grows more than table", DI, "        d->max_words = d->max_words + S3DICT_INC_SZ;", "        d->max_words = d->max_words + S3DICT_INC_SZ + 1;", "PAIR.D3-slot-and-chain")
+M("C16", "dict: count grows before registration", DI, "    if (hash_table_enter_int32(d->ht, wordp->word, d->n_word) != d->n_word) {", "    if (hash_table_enter_int32(d->ht, wordp->word, d->n_word++) != d->n_word - 1) {", "EFFECT.D1-failure-paths")
+M("C16", "decoder: pron bytes again", DC, "    pron = ckd_calloc(strlen(phones) + 1, sizeof(*pron));", "    pron = ckd_calloc(1, strlen(phones) + 1);", "ALLOCSZ.D4")
+M("C16", "decoder: empty pron accepted", DC, """    if (np == 0) {
+        E_ERROR("Empty pronunciation for word %s\\n", word);
+        ckd_free(pron);
+        return -1;
+    }
+""", "", "GUARD.D2-empty-input")
+M("C16", "decoder: pron leaked on refusal", DC, """    if ((wid = dict_add_word(d->dict, word, pron, np)) == -1) {
+        ckd_free(pron);
+        return -1;
+    }""", """    if ((wid = dict_add_word(d->dict, word, pron, np)) == -1) {
+        return -1;
+    }""", "ERRD.D6-api")
+M("C16", "decoder: refusal not propagated", DC, """    if ((wid = dict_add_word(d->dict, word, pron, np)) == -1) {
+        ckd_free(pron);
+        return -1;
+    }""", """    if ((wid = dict_add_word(d->dict, word, pron, np)) == -1) {
+        ckd_free(pron);
+        return 0;
+    }""", "ERRD.D6-api")
+M("C16", "decoder: dict2pid gets wrong id", DC, "    dict2pid_add_word(d->d2p, wid);", "    dict2pid_add_word(d->d2p, wid - 1);", "ERRD.D6-api")
